@@ -271,7 +271,9 @@ def st_universe(draw, mode="loop", kinds=None, max_bars=8, max_ops=14, need=None
     n = nb * k - (draw(st.integers(0, k - 1)) if k > 1 else 0)
     if "opt" in order:
         n = max(n, 3)
-    if "opt" in order and draw(st.booleans()):
+    if "opt" in order and mode == "frozen" and draw(st.booleans()):
+        start = 60 * draw(st.integers(1, 30))  # the frozen bar is on the hour: the option market is open
+    elif "opt" in order and draw(st.booleans()):
         start = 60 * draw(st.integers(1, 30)) - draw(st.integers(1, n - 1))  # an hour boundary inside the range
     else:
         start = draw(st.integers(0, 40 * 60))
@@ -288,6 +290,7 @@ def st_universe(draw, mode="loop", kinds=None, max_bars=8, max_ops=14, need=None
     case = {"start": start, "n": n, "k": k, "quote": quote, "order": order, "eth": eth, "osq": osq, "avax": avax, "usdc": usdc}
     if mode == "frozen":
         case["consistent"] = True
+        case["index_eq_mark"] = draw(st.booleans())
     elif draw(st.integers(0, 3)) == 0:
         case["jitter"] = {t: draw(st.sampled_from(["0.97", "1.02"])) for t in draw(st.lists(st.sampled_from(["WETH", "OSQTH", "ETH", "DAI"]), max_size=2, unique=True))}
     if "uni" in order:
